@@ -91,13 +91,11 @@ def mic (e : Eapol) : Bytes := (e.hdr.drop 76).take 16
 
 def be16 (n : Nat) : Bytes := [(n / 256 % 256).toUInt8, (n % 256).toUInt8]
 
-/-- `RSNEAPOL::serialize()`: the EAPOL length is recomputed; when there is key data the key-data length (and, for
-    group-key messages, the key length) are rewritten by `write_body` -/
+/-- `RSNEAPOL::serialize()`: the EAPOL length is recomputed (`length(total_sz - 4)`); when there is key data
+    `write_body` rewrites the key-data length (`wpa_length(key_.size())`), nothing else -/
 def serialize (e : Eapol) : Bytes :=
   let total := 99 + e.key.length + e.trailing.length
-  let hdr := if e.key.isEmpty then e.hdr else
-    let h1 := if !e.keyT && e.install then e.hdr.take 2 ++ [0, 32] ++ e.hdr.drop 4 else e.hdr
-    h1.take 92 ++ be16 (e.key.length % 65536)
+  let hdr := if e.key.isEmpty then e.hdr else e.hdr.take 92 ++ be16 (e.key.length % 65536)
   [e.version, e.packetType] ++ be16 ((total - 4) % 65536) ++ [e.descType] ++ hdr ++ e.key ++ e.trailing
 end Eapol
 
